@@ -10,14 +10,33 @@
 #ifndef KN
 #define KN 3
 #endif
+#if KN == 1
+#define K_EACH(M) M(0)
+#elif KN == 2
+#define K_EACH(M) M(0) M(1)
+#elif KN == 3
+#define K_EACH(M) M(0) M(1) M(2)
+#elif KN == 4
+#define K_EACH(M) M(0) M(1) M(2) M(3)
+#else
+#error "KN must be 1..4"
+#endif
 namespace photon {
-static Raw<thread> K_th[KN];
+// separate objects, not an array: thread pointers travel through queue links; a pointer into ONE array object has a symbolic offset and every
+// access through it becomes a byte-level operation over all thread objects
+static Raw<thread> K_th0, K_th1, K_th2, K_th3;
 static bool K_blocked[KN];     // sleeping in K (not runnable)
 static bool K_finite[KN];      // its deadline is finite (the timeout event is enabled)
 static bool K_timedout[KN];    // ghost: the last wake-up of this thread was the timeout event
 static unsigned K_sleeps[KN], K_wakes[KN];
-static inline thread* K_thread(int i) { return &K_th[i].v; }
-static inline int K_index(thread* t) { for (int i = 0; i < KN; i++) if (t == K_thread(i)) return i; return -1; }
+static inline thread* K_thread(int i) { return i == 0 ? &K_th0.v : i == 1 ? &K_th1.v : i == 2 ? &K_th2.v : &K_th3.v; }
+static inline int K_index(thread* t)
+{
+#define K_M(i) if (t == K_thread(i)) return i;
+    K_EACH(K_M)      // loop-free: the contract layer adds nothing to the unwinding bound
+#undef K_M
+    return -1;
+}
 }
 extern "C" {
 void verif_set_tid(uint32_t);
@@ -27,12 +46,9 @@ using namespace photon;
 NOINL void K_init()
 {
     photon::now = 1000;
-    for (int i = 0; i < KN; i++) {
-        thread* t = new (&K_th[i].v) thread;
-        t->state = states::READY;
-        verif_set_tid(i);
-        CURRENT = t;           // every model thread is the current thread of its own (model) OS thread / vCPU
-    }
+#define K_M(i) { thread* t = new (&K_th##i.v) thread; t->state = states::READY; verif_set_tid(i); CURRENT = t; }   // every model thread is the current thread of its own (model) OS thread / vCPU
+    K_EACH(K_M)
+#undef K_M
     verif_set_tid(0);
 }
 // ---- thread_usleep_defer(timeout, waitq, defer, arg): enqueue + sleep, then run the deferred action ("after the switch")
